@@ -721,7 +721,7 @@ func main() {
 	}
 	one(runCfg{Seed: c.Rng.U64()}, nil)
 	one(runCfg{Seed: c.Rng.U64(), Temp: true}, nil)
-	reps := c.N(1, 12)
+	reps := c.N(1, 4)
 	for r := 0; r < reps; r++ {
 		for i := range ms {
 			mv := &ms[i]
@@ -754,6 +754,6 @@ func main() {
 			}
 		}
 	}
-	c.Obs.Rule = "one adversary move per exchange, every move of the library once per repetition (1 in quick, 12 in thorough) with a random bit position / the enumerated substituted values (all in thorough, three per run in quick): ResPQ {nonce, server_nonce, fingerprint flips; own RSA key; no fingerprints; pq > 2^63; pq in {0,1,2,3,1000003, largest prime < 2^63}; one pq bit flipped (must not panic or hang); replay}, Server_DH_Params {nonce flips; ciphertext flip / truncation / zeros; answer from a peer without new_nonce; replay; fail message; inner nonce flips; prime substituted by composite, non-safe prime, 2047/2049-bit, small, 0, 2^2047; prime bit flip; a key-holding peer that runs steps 5-8 itself with the production prime and g = 1..8 or an RFC 3526 group (oracle: Euler's criterion); whole group replaced by an RFC 3526 safe prime of 1536 / 2048 / 3072 bits with g = 2 or 4; generator 0,1,8,9,-1 or failing the residue rule; g_a in {0,1,p-1,p,2,2^1984-5,2^1984,p-2^1984,p-2^1984+3,p+12345}}, dh_gen {nonce flips, hash flip / random, retry, fail, replay}, raw bit flips in each server message, bit flips in the encrypted parts of the client's messages; plus two honest baselines; non-trivial = distinct (move, variant, seed)"
+	c.Obs.Rule = "one adversary move per exchange, every move of the library once per repetition (1 in quick, 4 in thorough) with a random bit position / the enumerated substituted values (all in thorough, three per run in quick): ResPQ {nonce, server_nonce, fingerprint flips; own RSA key; no fingerprints; pq > 2^63; pq in {0,1,2,3,1000003, largest prime < 2^63}; one pq bit flipped (must not panic or hang); replay}, Server_DH_Params {nonce flips; ciphertext flip / truncation / zeros; answer from a peer without new_nonce; replay; fail message; inner nonce flips; prime substituted by composite, non-safe prime, 2047/2049-bit, small, 0, 2^2047; prime bit flip; a key-holding peer that runs steps 5-8 itself with the production prime and g = 1..8 or an RFC 3526 group (oracle: Euler's criterion); whole group replaced by an RFC 3526 safe prime of 1536 / 2048 / 3072 bits with g = 2 or 4; generator 0,1,8,9,-1 or failing the residue rule; g_a in {0,1,p-1,p,2,2^1984-5,2^1984,p-2^1984,p-2^1984+3,p+12345}}, dh_gen {nonce flips, hash flip / random, retry, fail, replay}, raw bit flips in each server message, bit flips in the encrypted parts of the client's messages; plus two honest baselines; non-trivial = distinct (move, variant, seed)"
 	c.Finish()
 }
